@@ -513,6 +513,28 @@ fn json_str(s: &str) -> String {
     serde_json::to_string(s).unwrap()
 }
 
+/// number of consecutive expected comments, starting at `i`, whose concatenation is exactly the comment found (>= 2)
+fn merge_len(want: &[(String, &'static str)], i: usize, got: Option<&String>) -> Option<usize> {
+    let got = got?;
+    if i + 1 >= want.len() || !got.starts_with(want[i].0.as_str()) || got.len() <= want[i].0.len() {
+        return None;
+    }
+    let mut acc = String::new();
+    let mut m = 0usize;
+    while i + m < want.len() && got.starts_with(&format!("{}{}", acc, want[i + m].0)) {
+        acc.push_str(&want[i + m].0);
+        m += 1;
+        if acc.len() == got.len() {
+            break;
+        }
+    }
+    if m >= 2 && &acc == got {
+        Some(m)
+    } else {
+        None
+    }
+}
+
 /// edit script between the expected comments (with position tags) and the comments found
 fn comment_edits(want: &[(String, &'static str)], got: &[String]) -> Vec<Diff> {
     let mut diffs = vec![];
@@ -524,26 +546,15 @@ fn comment_edits(want: &[(String, &'static str)], got: &[String]) -> Vec<Diff> {
             continue;
         }
         // several consecutive comments written as one
-        if i + 1 < want.len() && j < got.len() && got[j].starts_with(want[i].0.as_str()) && got[j].len() > want[i].0.len() {
-            let mut acc = String::new();
-            let mut m = 0usize;
-            while i + m < want.len() && got[j].starts_with(&format!("{}{}", acc, want[i + m].0)) {
-                acc.push_str(&want[i + m].0);
-                m += 1;
-                if acc.len() == got[j].len() {
-                    break;
-                }
-            }
-            if m >= 2 && acc == got[j] {
-                diffs.push(Diff { class: "comments-merged".into(), detail: format!("{} consecutive comments were merged into {:?}", m, got[j]) });
-                i += m;
-                j += 1;
-                continue;
-            }
+        if let Some(m) = merge_len(want, i, got.get(j)) {
+            diffs.push(Diff { class: "comments-merged".into(), detail: format!("{} consecutive comments were merged into {:?}", m, got[j]) });
+            i += m;
+            j += 1;
+            continue;
         }
         let mut ok = false;
         for k in 1..=10usize {
-            if j < got.len() && i + k < want.len() && want[i + k].0 == got[j] || (j >= got.len() && i + k == want.len()) {
+            if j < got.len() && i + k < want.len() && (want[i + k].0 == got[j] || merge_len(want, i + k, got.get(j)).is_some()) || (j >= got.len() && i + k == want.len()) {
                 for d in &want[i..i + k] {
                     diffs.push(Diff { class: format!("{}-comment-dropped", d.1), detail: format!("comment {:?} ({} position) is missing from the output", d.0, d.1) });
                 }
@@ -575,11 +586,7 @@ fn minus_then_comment(text: &str) -> bool {
         if lx.text(&w[0]) == "-" {
             for tr in &w[1].leading {
                 match tr.kind {
-                    TriviaKind::Whitespace => {
-                        if lx.trivia_text(tr).contains('\n') {
-                            break;
-                        }
-                    }
+                    TriviaKind::Whitespace => {}
                     TriviaKind::LineComment | TriviaKind::LongComment => return true,
                     _ => break,
                 }
@@ -898,19 +905,41 @@ impl Monitor for C18 {
                             }
                             false
                         };
-                        let idx = if loc == "start" { got.iter().position(|c| exact(c)).or_else(|| got.iter().position(|c| holds(c))) } else { got.iter().rposition(|c| exact(c)).or_else(|| got.iter().rposition(|c| holds(c))) };
+                        // candidates: comments of the output that are not original comments (multiset difference)
+                        let mut pool: Vec<&String> = a.comments.iter().collect();
+                        let mut novel: Vec<usize> = vec![];
+                        for (i, c) in got.iter().enumerate() {
+                            if let Some(p) = pool.iter().position(|o| *o == c) {
+                                pool.remove(p);
+                            } else {
+                                novel.push(i);
+                            }
+                        }
+                        let pick = |pred: &dyn Fn(&str) -> bool| -> Option<usize> {
+                            if loc == "start" {
+                                novel.iter().copied().find(|i| pred(&got[*i]))
+                            } else {
+                                novel.iter().copied().rev().find(|i| pred(&got[*i]))
+                            }
+                        };
+                        let idx = pick(&exact).or_else(|| pick(&holds)).or_else(|| if loc == "start" { got.iter().position(|c| exact(c)) } else { got.iter().rposition(|c| exact(c)) });
                         match idx {
                             None => edits.push(Diff { class: "text-not-in-comment".into(), detail: format!("text {:?} at {}: no comment of the output contains it: {:?}", text, loc, b.comments.iter().take(6).collect::<Vec<_>>()) }),
                             Some(ix) => {
                                 let c = got.remove(ix);
-                                let neighbour = if loc == "start" { a.comments.first() } else { a.comments.last() };
+                                // the new comment may have been written directly before / after an original line comment,
+                                // which then forms one comment with it: the original text is still there
                                 let mut merged = false;
-                                if let Some(o) = neighbour {
-                                    let have = got.iter().filter(|x| *x == o).count();
-                                    let need = a.comments.iter().filter(|x| *x == o).count();
-                                    if c.contains(o.as_str()) && c != *o && have < need {
-                                        got.insert(ix.min(got.len()), o.clone());
-                                        merged = true;
+                                if !exact(&c) {
+                                    let mut at = ix.min(got.len());
+                                    for o in a.comments.iter() {
+                                        let have = got.iter().filter(|x| *x == o).count();
+                                        let need = a.comments.iter().filter(|x| *x == o).count();
+                                        if have < need && c.contains(o.as_str()) && c != *o {
+                                            got.insert(at, o.clone());
+                                            at += 1;
+                                            merged = true;
+                                        }
                                     }
                                 }
                                 cov.hit(if merged { "append:merged-into-existing-comment" } else { "append:separate-comment" });
@@ -982,9 +1011,18 @@ impl Monitor for C18 {
                 "single-line-text"
             };
             // with a hostile text the exact damage depends on the file: keep only its kind
-            let hostile = class == "text-with-cr" || class == "text-starting-with-long-bracket";
-            let sig = if hostile && (signature.starts_with("append:token-") || signature.starts_with("append:tokens-")) { "append:code-tokens-changed" } else { signature };
-            return format!("{}|{}|{}", sig, case["location"].as_str().unwrap_or(""), class);
+            // where the comment is attached: a type declaration as last (first) statement gets it in its middle
+            let src = case["src"].as_str().unwrap_or("");
+            let loc = case["location"].as_str().unwrap_or("");
+            let mut site = "";
+            if let Ok(b) = crate::reflua::parser::parse_block(src, Mode::Luau) {
+                use crate::reflua::ast::Stmt;
+                let st = if loc == "end" { b.stmts.last() } else { b.stmts.first() };
+                if matches!(st, Some(Stmt::TypeDecl { .. } | Stmt::TypeFunction { .. })) {
+                    site = "|attached-to-type-declaration";
+                }
+            }
+            return format!("{}|{}|{}{}", signature, loc, class, site);
         }
         signature.to_string()
     }
